@@ -3,7 +3,7 @@
    with parse_message on the decoded tree, 8 zone options).  Each conversion is written once in the model; the theorems
    state them.  The whole-message statement "exactly one Trip per distinct descriptor, fields of its own entity" is
    C07_own_entity_wins / C07_bare_only (Properties/C07.v) together with these per-field conversions. *)
-From GV Require Import Base.Prelude Model.RtTypes Model.RtWire Model.Realtime Proofs.RealtimeProofs Proofs.MergeProofs Proofs.MentionProofs Gen.Enums Gen.NyctTables Gen.Footprint.
+From GV Require Import Base.Prelude Model.RtTypes Model.RtWire Model.Realtime Proofs.RealtimeProofs Proofs.MergeProofs Proofs.MentionProofs Gen.Enums Gen.NyctTables Gen.Footprint Proofs.PurityProofs Proofs.ZoneProofs.
 
 (* HH:MM:SS becomes that duration (ns), for every two-digit H, M, S - hours past 24 included *)
 Theorem C02_start_time : forall h m s, 0 <= h < 100 -> 0 <= m < 100 -> 0 <= s < 100 ->
@@ -62,6 +62,22 @@ Print Assumptions C02_trips_are_the_mentioned.
 Theorem C02_one_trip_per_descriptor : forall cm tz cfg m, NoDup (map tr_key (rt_trips (parse_message cm tz cfg m))).
 Proof. exact trip_ids_unique. Qed.
 Print Assumptions C02_one_trip_per_descriptor.
+
+(* ---- "in the configured zone", for EVERY message, every zone option and every extension configuration: every instant of
+   the result carries the configured zone (UTC when none) - the creation time (when the header has a timestamp; otherwise it
+   is Go's zero time), the start date of every trip identifier wherever it occurs (Trips, Vehicles' trip references, alerts'
+   informed entities), every arrival / departure time, every vehicle timestamp and both bounds of every alert period ---- *)
+Theorem C02_every_instant_in_the_configured_zone : forall cm tz cfg m,
+  let r := parse_message cm tz cfg m in
+  (fm_ts m <> None -> snd (rt_created r) = zone_name tz) /\
+  Forall (fun t => key_wf tz (tr_key t) /\ Forall (stu_ok tz) (tr_stus t)) (rt_trips r) /\
+  Forall (fun v => okey_ok tz (ve_trip v) /\ oinst_ok tz (ve_ts v)) (rt_vehicles r) /\
+  Forall (fun a => Forall (fun p => oinst_ok tz (fst p) /\ oinst_ok tz (snd p)) (al_periods a) /\ Forall (fun e => okey_ok tz (ie_trip e)) (al_informed a)) (rt_alerts r).
+Proof. exact parse_message_zoned. Qed.
+Print Assumptions C02_every_instant_in_the_configured_zone.
+(* what the predicates say: a trip identifier's start date is in the zone when it has one (and is Go's zero time otherwise) *)
+Example C02_zone_predicates : forall tz k i, (key_wf tz k -> k_has_date k = true -> snd (k_date k) = zone_name tz) /\ (oinst_ok tz (Some i) <-> snd i = zone_name tz).
+Proof. intros tz k i. split; [intros (_ & _ & H); exact H|reflexivity]. Qed.
 
 (* tie to the source: the two patterns the descriptor parser matches with, as they stand in realtime.go now (parse_start_time /
    parse_start_date of the model implement exactly these languages) *)
